@@ -243,7 +243,13 @@ impl<
                 )?
             }
             SeekFrom::Current(offset) => {
-                self.seek_from_current(offset.try_into().map_err(|_| Error::InvalidOffset)?)?
+                // Positions are `u32`: a legitimate relative offset need not
+                // fit an `i32`, so work out the target and seek there.
+                let current = self.volume_mgr.file_offset(self.raw_file)?;
+                let target = i64::from(current)
+                    .checked_add(offset)
+                    .ok_or(Error::InvalidOffset)?;
+                self.seek_from_start(target.try_into().map_err(|_| Error::InvalidOffset)?)?
             }
         }
         Ok(self.offset().into())
